@@ -15,14 +15,14 @@ type dstZone struct {
 }
 
 var dstZones = []dstZone{
-	{"America/New_York", [][3]int{{2024, 3, 10}, {2024, 11, 3}, {2021, 3, 14}}},     // 02:00 -> 03:00, 02:00 -> 01:00
-	{"Europe/Berlin", [][3]int{{2024, 3, 31}, {2024, 10, 27}, {2023, 10, 29}}},      // 02:00 -> 03:00, 03:00 -> 02:00
-	{"Australia/Lord_Howe", [][3]int{{2024, 4, 7}, {2024, 10, 6}}},                  // half-hour shift
-	{"America/Havana", [][3]int{{2024, 3, 10}, {2024, 11, 3}}},                      // 00:00 -> 01:00: midnight does not exist
-	{"America/Sao_Paulo", [][3]int{{2018, 11, 4}, {2019, 2, 17}, {2018, 2, 18}}},    // 00:00 -> 01:00, 24:00 -> 23:00
-	{"Pacific/Apia", [][3]int{{2011, 12, 30}, {2011, 12, 31}, {2011, 12, 29}}},      // 2011-12-30 never happened
-	{"Asia/Beirut", [][3]int{{2024, 3, 31}, {2024, 10, 27}}},                        // 00:00 -> 01:00, 24:00 -> 23:00
-	{"Europe/London", [][3]int{{2024, 3, 31}, {2024, 10, 27}, {2024, 12, 31}}},      // 01:00 -> 02:00, 02:00 -> 01:00
+	{"America/New_York", [][3]int{{2024, 3, 10}, {2024, 11, 3}, {2021, 3, 14}}},  // 02:00 -> 03:00, 02:00 -> 01:00
+	{"Europe/Berlin", [][3]int{{2024, 3, 31}, {2024, 10, 27}, {2023, 10, 29}}},   // 02:00 -> 03:00, 03:00 -> 02:00
+	{"Australia/Lord_Howe", [][3]int{{2024, 4, 7}, {2024, 10, 6}}},               // half-hour shift
+	{"America/Havana", [][3]int{{2024, 3, 10}, {2024, 11, 3}}},                   // 00:00 -> 01:00: midnight does not exist
+	{"America/Sao_Paulo", [][3]int{{2018, 11, 4}, {2019, 2, 17}, {2018, 2, 18}}}, // 00:00 -> 01:00, 24:00 -> 23:00
+	{"Pacific/Apia", [][3]int{{2011, 12, 30}, {2011, 12, 31}, {2011, 12, 29}}},   // 2011-12-30 never happened
+	{"Asia/Beirut", [][3]int{{2024, 3, 31}, {2024, 10, 27}}},                     // 00:00 -> 01:00, 24:00 -> 23:00
+	{"Europe/London", [][3]int{{2024, 3, 31}, {2024, 10, 27}, {2024, 12, 31}}},   // 01:00 -> 02:00, 02:00 -> 01:00
 }
 
 var (
